@@ -124,20 +124,27 @@ func c12SchedScenario(c *fw.Ctx, sp c12Spec) schedScenario {
 					ths := []vsched.Thread{
 						{Name: "scanner", F: func() { scanErr = rs.DoScan(ctx); scanDone = true }},
 						{Name: "deliverer", F: func() { add("n3", "boxe", 0); add("n1", "boxa", 0); add("n2", "boxd", 0) }},
-						{Name: "remover", F: func() { _ = st.RemoveMessage("boxa", getID("y1")); _ = st.RemoveMessage("boxc", getID("y2")) }},
+						{Name: "remover", F: func() {
+							// a young message, the last message of a mailbox, and an EXPIRED message
+							// that the scanner may be about to purge itself
+							_ = st.RemoveMessage("boxa", getID("y1"))
+							_ = st.RemoveMessage("boxc", getID("y2"))
+							_ = st.RemoveMessage("boxb", getID("e2"))
+						}},
 					}
 					final = func() {
 						if !scanDone {
 							return
 						}
+						errNote := ""
 						if scanErr != nil {
-							addProb("scan-error", "DoScan returned an error while deliveries/removals ran: "+scanErr.Error())
-							return
+							// an error return is judged by its consequence: expired mail left behind
+							errNote = " (DoScan returned: " + scanErr.Error() + ")"
 						}
 						var o []string
 						for _, k := range []struct{ key, mb string }{{"e1", "boxa"}, {"e2", "boxb"}, {"e3", "boxe"}, {"e4", "boxe"}} {
 							if present(k.key, k.mb) {
-								addProb("expired-survived", fmt.Sprintf("message %s in %s was expired when the scan began, nothing else removed it, yet it is still there after the scan returned nil", k.key, k.mb))
+								addProb("expired-survived", fmt.Sprintf("message %s in %s was expired when the scan began, nothing else removed it, yet it is still there after the scan returned%s", k.key, k.mb, errNote))
 							}
 						}
 						for _, k := range []struct{ key, mb string }{{"n1", "boxa"}, {"n2", "boxd"}, {"n3", "boxe"}} {
